@@ -337,3 +337,11 @@ Definition construction_spec : list (string * list string) := [
   ("clusterBridge.Close", ["if err := b.ClusterClient.Close ( ) ; err != nil { logx.Errorf ( ""\u5173\u95ED redis \u96C6\u7FA4\u5BA2\u6237\u7AEF\u65F6\u51FA\u9519\uFF1A%s"" , err ) ; }"]);
   ("kv.New", ["if len ( p0 ) == 0 || cache.TotalWeights ( p0 ) <= 0 { log.Fatal ( ""\u672A\u914D\u7F6E\u7F13\u5B58\u8282\u70B9"" ) ; }"; "dispatcher := hash.NewConsistentHash ( )"; "for _ , cfg := range p0 { rds := cfg.NewRedis ( ) ; dispatcher.AddWithWeight ( rds , cfg.Weight ) ; }"; "return kvStore { dispatcher : dispatcher , }"])
 ].
+
+(* ---- metrics (metrics.go, hook.go): the duration histogram is labelled by command, the error counter by command
+   and error class; every use hands over exactly as many label values as declared (the Prometheus client panics on
+   any other number once the agent is enabled) ---- *)
+Definition metrics_spec : list (string * nat * list nat) := [
+  ("metricReqDur", 1%nat, [1%nat; 1%nat]);      (* AfterProcess, AfterProcessPipeline *)
+  ("metricReqErr", 2%nat, [2%nat; 2%nat])
+].
